@@ -26,6 +26,13 @@
 (***************************************************************************)
 EXTENDS Integers, Sequences, FiniteSets, TLC, SequencesExt, FiniteSetsExt, Functions
 
+(* Negative control of the bindings (tools/BUILDING.md): SeqMutation switches *)
+(* ONE definition to a wrong one; the unchanged implementation must then be   *)
+(* rejected (`C13_MUTANT=<name> ./check C13 quick`).  Every cfg sets "none".  *)
+(*   scan_no_seed   scan ... from z omits the starting value                  *)
+(*   unique_last    unique keeps the LAST occurrence of every element         *)
+CONSTANT SeqMutation
+
 I(n) == [t |-> "i", n |-> n]
 S(s) == [t |-> "s", s |-> s]
 Nul == [t |-> "n"]
@@ -173,7 +180,8 @@ LFold(f, xs, z) ==      \* z: <<>> or <<start>>
 \* scan: like fold, but all intermediate values (the start, or the first element, included)
 LScan(f, xs, z) ==
     LET ys == z \o xs
-        ps == [j \in 1..Len(ys) |-> FoldFrom(f, Y(ys[1]), SubSeq(ys, 1, j), 2)]
+        ps0 == [j \in 1..Len(ys) |-> FoldFrom(f, Y(ys[1]), SubSeq(ys, 1, j), 2)]
+        ps == IF SeqMutation = "scan_no_seed" /\ z # <<>> THEN Tail(ps0) ELSE ps0
     IN IF \A j \in 1..Len(ps) : ps[j].ok THEN ROk(L([j \in 1..Len(ps) |-> ps[j].v])) ELSE RThrow
 LSum(xs) == LFold("plus", xs, <<I(0)>>)
 LProduct(xs) == IF \A j \in Idx(xs) : xs[j].t = "i"
@@ -200,7 +208,9 @@ IsPermOf(ys, xs) == Len(ys) = Len(xs) /\ \A j \in Idx(xs) :
 
 (* --------------------------- unique and groups -------------------------- *)
 \* unique: duplicates removed, elements ordered by their first appearance
-LUniqueSeq(xs) == Pick(xs, Where(xs, LAMBDA j : \A h \in 1..(j - 1) : xs[h] # xs[j]))
+LUniqueSeq(xs) == IF SeqMutation = "unique_last"
+                  THEN Pick(xs, Where(xs, LAMBDA j : \A h \in (j + 1)..Len(xs) : xs[h] # xs[j]))
+                  ELSE Pick(xs, Where(xs, LAMBDA j : \A h \in 1..(j - 1) : xs[h] # xs[j]))
 \* group by a relation with the previous element: a new group starts where it does not hold
 BreaksAfter(xs, R(_, _)) == {j \in 1..(Len(xs) - 1) : ~R(xs[j], xs[j + 1])}
 GroupsAt(xs, brk) ==
@@ -367,12 +377,15 @@ Apply(fn, kind, xs, par) ==
          \* .+ / +. : prepend / append an element to a list; .. : a two-element list
          [] fn = "prepend" -> IF kind = "list" THEN ROk(L(<<v>> \o xs)) ELSE RUnspec
          [] fn = "append" -> IF kind = "list" THEN ROk(L(xs \o <<v>>)) ELSE RUnspec
-         [] fn = "pair" -> ROk(L(<<Whole(kind, xs), v>>))
+         \* (a stream used as an ELEMENT stays a stream: outside this value universe)
+         [] fn = "pair" -> IF kind = "stream" THEN RUnspec ELSE ROk(L(<<Whole(kind, xs), v>>))
          \* .* / *. : a list with n copies of something
-         [] fn = "replicate" -> IF n < 0 THEN RUnspec ELSE ROk(L([j \in 1..n |-> Whole(kind, xs)]))
-         [] fn = "replicate_r" -> IF n < 0 THEN RUnspec ELSE ROk(L([j \in 1..n |-> Whole(kind, xs)]))
+         [] fn \in {"replicate", "replicate_r"} ->
+                IF n < 0 \/ kind = "stream" THEN RUnspec ELSE ROk(L([j \in 1..n |-> Whole(kind, xs)]))
          [] fn = "product2" -> ROk(L(LProduct2(xs, o)))
-         [] fn = "power" -> IF n < 0 THEN RUnspec ELSE ROk(ListOfLists(PowerSeqs(xs, n)))
+         \* (the 0-th power of the EMPTY sequence: the documentation is silent, the implementation yields nothing
+         \*  where the empty product would be one empty tuple - left open)
+         [] fn = "power" -> IF n < 0 \/ (n = 0 /\ xs = <<>>) THEN RUnspec ELSE ROk(ListOfLists(PowerSeqs(xs, n)))
          [] fn = "permutations" -> ROk(ListOfLists(PermSeqs(xs)))
          [] fn = "combinations" -> IF n < 0 THEN RThrow ELSE ROk(ListOfLists(CombSeqs(xs, n)))
          [] fn = "subsequences" -> ROk(ListOfLists(SubseqSeqs(xs)))
